@@ -144,12 +144,29 @@ def search_evm(ctx, shapes, budget=6):
             pre = f"let t := {ct} in let base := enc t (VList [{A.coq_val(t, v)}]) in "
             exp = A.coq_strings([pre + f"join (expect_call t {zs} base {cl})"], "c05cds", imports=imports, shard=1)[0].split(",")
             src, _ = H.build_source(t)
+            kwt = ("tuple", (t, ("uint", 8), ("bytes", 4)))
+            kwbase = A.py_enc(kwt, [v, 200, bytes([170, 187, 204])], 0)
+            kwsel = [selector(sig("kw", [t])), selector(sig("kw", [t, ("uint", 8)])), selector(sig("kw", [t, ("uint", 8), ("bytes", 4)]))]
             for cfg in C.core_configs():
-                ins = [("call", fn(base)) for _, fn in cs] + [("ctorx", fn(base)) for _, fn in cs[:12]]
-                res = H.run_job((src, cfg, [base], [ins], [], t, [b""]))
-                if res.get("skipped") or res.get("error"):
+                ins = [("call", fn(base)) for _, fn in cs] + [("kw2", kwbase)]
+                res = H.run_job((src, cfg, [base], [ins], kwsel, t, [b""]))
+                if res.get("skipped"):
+                    continue
+                rec = {"source": src, "config": cfg.name, "type": A.eth_ty(t), "value": repr(v), "corruption": "CX []",
+                       "model": "=", "canonical_base": base.hex(), "ctor_base": base.hex(), "kwsel": [x.hex() for x in kwsel]}
+                if res.get("error") == "deploy with canonical constructor args failed":
+                    found.append(dict(rec, entry="ctorx", input_hex=base.hex(), observed_ok=False, observed_out="",
+                                      text="canonical encoding of an in-type value was rejected (constructor arguments: deploy reverts)"))
+                    break
+                if res.get("error"):
                     continue
                 obs = res["obs"][0]
+                okk, outk = obs[len(cs)]
+                if okk is not True or outk != kwbase:
+                    found.append(dict(rec, entry="kw2", input_hex=kwbase.hex(), observed_ok=okk, canonical_base=kwbase.hex(),
+                                      observed_out=outk.hex() if isinstance(outk, bytes) else outk,
+                                      text="kw(x,b,c) entry point: canonical encoding rejected or echoed value differs from the decoding of the bytes"))
+                    break
                 for (cterm, fn), e, (ok, out) in zip(cs, exp, obs[:len(cs)]):
                     okm = e != "R"
                     if ok is True and not okm:
@@ -203,7 +220,7 @@ def run(ctx):
         found = search_evm(ctx, shapes)
         ctx.log(f"calldata/code search on the EVM: {len(found)} failing inputs in {time.time() - t1:.1f}s")
         for d in found[:3]:
-            ctx.violation("failing-input", "call: " + d.pop("text") + " (calldata-source decoder)", d)
+            ctx.violation("failing-input", d["entry"] + ": " + d.pop("text") + " (calldata/code-source decoder)", d)
     srch = "EVM differential on the offending shapes ran" + ("; failing input reported" if found else "; no failing input")
     if b["err"] is not None:
         ctx.violation("translator-rejected", b["err"], {"error": b["err"], "search": srch})
